@@ -55,18 +55,22 @@ Fixpoint q_digits (i : nat) (n d : Z) (s : bytes) : Z * Z * bytes :=
     else (n, d, s)
   end.
 
+(* after the integer digit: an optional fraction *)
+Definition q_cont (q : Z) (s' : bytes) : qv * bytes :=
+  match s' with
+  | c :: s'' => if Nat.eqb c 46
+                then let '(n, d, rest) := q_digits 0 0%Z 1%Z s'' in (mkq q n d, rest)
+                else (mkq q 0 1, s')
+  | [] => (mkq q 0 1, s')
+  end.
+
 Definition expect_quality (s : bytes) : qv * bytes :=
   match s with
   | [] => (q_neg1, [])
   | c :: r =>
-    let cont (q : Z) (s' : bytes) : qv * bytes :=
-      match s' with
-      | 46 :: s'' => let '(n, d, rest) := q_digits 0 0%Z 1%Z s'' in (mkq q n d, rest)
-      | _ => (mkq q 0 1, s')
-      end in
-    if Nat.eqb c 48 then cont 0%Z r
-    else if Nat.eqb c 49 then cont 1%Z r
-    else if Nat.eqb c 46 then cont 0%Z s
+    if Nat.eqb c 48 then q_cont 0%Z r
+    else if Nat.eqb c 49 then q_cont 1%Z r
+    else if Nat.eqb c 46 then q_cont 0%Z s
     else (q_neg1, [])
   end.
 
